@@ -49,9 +49,14 @@ def absr(x):
 class Module:
     def __init__(self, path, extra_paths=()):
         self.funcs = {}
+        self.consts = {}
         for pth in list(extra_paths) + [path]:
             src = open(pth, encoding="utf-8").read()
-            self.funcs.update({n.name: n for n in ast.parse(src).body if isinstance(n, ast.FunctionDef)})
+            tree = ast.parse(src)
+            self.funcs.update({n.name: n for n in tree.body if isinstance(n, ast.FunctionDef)})
+            for n in tree.body:
+                if isinstance(n, ast.Assign) and len(n.targets) == 1 and isinstance(n.targets[0], ast.Name) and isinstance(n.value, ast.Constant) and isinstance(n.value.value, (int, float)) and not isinstance(n.value.value, bool):
+                    self.consts[n.targets[0].id] = n.value.value
         self.fresh = itertools.count()
         self.stub_log = set()
 
@@ -72,6 +77,13 @@ class Ev:
             return self.env[n.id]
         if n.id in ("NUMBER_TYPE", "str", "list"):
             return ("T", n.id)
+        if n.id in self.mod.consts:
+            c = self.mod.consts[n.id]
+            if isinstance(c, int):
+                return V(PYINT, z3.IntVal(c))
+            import fractions
+            fr = fractions.Fraction(repr(c))
+            return V(FLOAT, z3.RealVal("%d/%d" % (fr.numerator, fr.denominator)))
         raise Unsupported("name " + n.id)
 
     def ev_Attribute(self, n):
@@ -131,11 +143,22 @@ class Ev:
             return ("B", z3.BoolVal(a != b))
         raise Unsupported("comparison of non-numbers")
 
+    def truth(self, c):
+        if isinstance(c, V):
+            return c.real() != 0
+        if isinstance(c, tuple) and c[0] == "B":
+            return c[1]
+        if isinstance(c, tuple) and c[0] == "ITE":
+            return z3.If(c[1], self.truth(c[2]), self.truth(c[3]))
+        raise Unsupported("truth value of " + str(c)[:40])
+
     def ev_IfExp(self, n):
-        c = self.ev(n.test)
-        if c[0] != "B":
-            raise Unsupported("condition")
-        return ("ITE", c[1], self.ev(n.body), self.ev(n.orelse))
+        c = self.truth(self.ev(n.test))
+        return ("ITE", c, self.ev(n.body), self.ev(n.orelse))
+
+    def ev_BoolOp(self, n):
+        vals = [self.truth(self.ev(v)) for v in n.values]
+        return ("B", z3.Or(*vals) if isinstance(n.op, ast.Or) else z3.And(*vals))
 
     def ev_Lambda(self, n):
         return ("LAM", n.body)
@@ -152,6 +175,20 @@ class Ev:
             return ts[0] if len(ts) == 1 else ("TT", ts)
         if f in ("sympy.nsimplify", "sympy.sympify", "sympy.Rational", "sympy.floor", "int", "abs") or (f == "vyxalify" and "vyxalify" not in self.mod.funcs):
             return self.stub(f, [self.num(self.ev(a)) for a in n.args], kw)
+        if f == "bool":
+            return ("B", self.truth(self.ev(n.args[0])))
+        if f == "int" and n.args:
+            a0 = self.ev(n.args[0])
+            if isinstance(a0, tuple) and a0[0] == "B":
+                return V(PYINT, z3.If(a0[1], z3.IntVal(1), z3.IntVal(0)))
+        if f == "simplify" :
+            a = self.num(self.ev(n.args[0]))
+            self.mod.stub_log.add("simplify")
+            if a.tag == PYINT or a.tag == FLOAT:
+                return a
+            if a.ival is not None:
+                return V(PYINT, a.ival)
+            return V(FLOAT, self.nearby(a))  # eval(sympy.pycode(rational)) is a python float near the value
         if f == "isinstance":
             return ("B", self.isinstance(self.num(self.ev(n.args[0])), n.args[1]))
         if f == "is_sympy":
